@@ -86,7 +86,24 @@ pub assume_specification<Idx: Clone>[ <core::ops::Range<Idx> as Clone>::clone ](
 #[verifier::reject_recursive_types(A)]
 pub struct ExDrain<'a, T: 'a, A: Allocator>(std::vec::Drain<'a, T, A>);
 
-pub assume_specification<T, A: Allocator, R: core::ops::RangeBounds<usize>>[ Vec::<T, A>::drain ](v: &mut Vec<T, A>, range: R) -> (d: std::vec::Drain<'_, T, A>);
+/// the items an iterator will yield, in order (uninterpreted; only `Vec::drain` says anything about it)
+pub uninterp spec fn iter_items<I: Iterator>(it: I) -> Seq<I::Item>;
+
+/// the elements of `v` selected by a range value (uninterpreted; `axiom_drain_full` fixes `..`)
+pub uninterp spec fn drain_range<T, R>(v: Seq<T>, range: R) -> Seq<T>;
+
+/// TRUSTED (std): `v.drain(range)` yields the elements of `v` in `range`, in order
+pub assume_specification<T, A: Allocator, R: core::ops::RangeBounds<usize>>[ Vec::<T, A>::drain ](v: &mut Vec<T, A>, range: R) -> (d: std::vec::Drain<'_, T, A>)
+    ensures
+        iter_items(d) == drain_range(old(v)@, range),
+;
+
+/// TRUSTED (std): the full range selects everything
+#[verifier::external_body]
+pub proof fn axiom_drain_full<T>(v: Seq<T>)
+    ensures
+        drain_range(v, ..) == v,
+{}
 
 /// A `Vec<Line>` never holds more than isize::MAX / size_of::<Line>() (= 2^63 / 32) elements:
 /// guaranteed by the allocation limit of Vec, stated here because vstd only knows `len <= usize::MAX`.
